@@ -219,7 +219,7 @@ Theorem c17_dns_close_source_facts :
   Gen.CloseShape.sweep_closes_out_queue = true /\ Gen.CloseShape.out_queue_close_as_modelled = true /\
   Gen.CloseShape.out_queue_close_steps = "q.queueMutex.Lock();q.closed = true;for;q.queueNotifiers = q.queueNotifiers[0:0];q.queueMutex.Unlock()"%string /\
   Gen.CloseShape.out_queue_wait_tests = "!q.queueHasData -> nil;q.closed -> os.ErrClosed"%string /\
-  Gen.CloseShape.out_queue_wait_after_wake = "q.closedWithData();(falls through);q.closedWithData()"%string /\
+  Gen.CloseShape.out_queue_wait_after_wake = "q.closedWithData()"%string /\
   Gen.CloseShape.out_queue_closed_with_data = "q.closed && q.queueHasData -> os.ErrClosed"%string /\
   Gen.CloseShape.out_queue_write_steps = "err = q.waitEmptyQueue();if err != nil;for;q.checkQueueFull();return n, q.waitEmptyQueue()"%string /\
   Gen.CloseShape.server_write_otherwise = "return u.out.Write(b, u.Serializer.Downstream.FragmentSize)"%string /\
